@@ -5,6 +5,7 @@ import (
 	"fmt"
 	"math"
 	"os"
+	"os/exec"
 
 	"github.com/prometheus/prometheus/model/labels"
 	"github.com/prometheus/prometheus/tsdb"
@@ -16,37 +17,45 @@ func main() {
 	dir, _ := os.MkdirTemp("/var/tmp", "probe")
 	defer os.RemoveAll(dir)
 	o := tsdb.DefaultOptions()
-	o.MinBlockDuration = 1000
-	o.MaxBlockDuration = 9000
+	o.MinBlockDuration = 200
+	o.MaxBlockDuration = 1800
 	o.RetentionDuration = 0
-	db, err := tsdb.Open(dir, tsdbx.NopLogger(), nil, o, nil)
-	if err != nil {
-		panic(err)
+	o.EnableMemorySnapshotOnShutdown = true
+	o.SamplesPerChunk = 4
+	open := func(d string) *tsdb.DB {
+		db, err := tsdb.Open(d, tsdbx.NopLogger(), nil, o, nil)
+		if err != nil {
+			panic(err)
+		}
+		db.DisableCompactions()
+		return db
 	}
-	db.DisableCompactions()
+	db := open(dir)
 	ls := labels.FromStrings("__name__", "m", "s", "0")
-	app := db.Appender(context.Background())
-	app.Append(0, ls, 225, 1)
-	app.Commit()
-	app = db.Appender(context.Background())
-	app.Append(0, ls, 251, 2)
-	app.Commit()
-	fmt.Println(db.CompactHead(tsdb.NewRangeHead(db.Head(), 225, 438)))
-	app = db.Appender(context.Background())
-	app.Append(0, ls, 1327, 3)
-	app.Commit()
-	dump := func(tag string) {
-		q, _ := db.Querier(math.MinInt64, math.MaxInt64)
-		d, _, err := tsdbx.DumpQuerier(q)
-		q.Close()
-		fmt.Println(tag, d, err)
+	add := func(t int64) {
+		app := db.Appender(context.Background())
+		_, err := app.Append(0, ls, t, float64(t))
+		fmt.Println("append", t, err, app.Commit())
 	}
-	dump("before")
-	m := labels.MustNewMatcher(labels.MatchRegexp, "s", "0|1")
-	fmt.Println(db.Delete(context.Background(), math.MinInt64, math.MaxInt64, m))
-	dump("after")
-	for _, b := range db.Blocks() {
-		fmt.Println(b.Meta().MinTime, b.Meta().MaxTime, b.Meta().Stats)
+	base := int64(-638)
+	if len(os.Args) > 1 {
+		base = 1000
 	}
+	add(base + 29)
+	add(base + 7)
 	db.Close()
+	db = open(dir)
+	add(base + 300)
+	add(base + 401)
+	add(base + 485)
+	exec.Command("cp", "-r", dir, dir+".img").Run()
+	defer os.RemoveAll(dir + ".img")
+	db.Close()
+	os.Remove(dir + ".img/lock")
+	db2 := open(dir + ".img")
+	q, _ := db2.Querier(math.MinInt64, math.MaxInt64)
+	d, _, err := tsdbx.DumpQuerier(q)
+	q.Close()
+	fmt.Println("after crash reopen:", d, err)
+	db2.Close()
 }
